@@ -53,6 +53,13 @@ class ModelMixin:
         self.used_builtins.add(name)
         return m(args, kwargs, st, line)
 
+    def bi_sys_exc_info(self, args, kwargs, st, line):
+        # (type, value, traceback) of the exception being handled; the type and traceback are opaque
+        cur = st.env.get('$handling')
+        if cur is None:
+            return [ok((None, None, None), st)]
+        return [ok((Opaque(fresh_name('exc_type'), kind='excclass'), cur, Opaque(fresh_name('traceback'), kind='traceback')), st)]
+
     def bi_object(self, args, kwargs, st, line):
         # `object()`: a value with an identity of its own (sentinels): one uninterpreted constant per call site, so that a
         # module-level `SENTINEL = object()` denotes the same value wherever it is referenced
